@@ -52,6 +52,8 @@ type result struct {
 	Counters map[string]int64 `json:"counters"`
 	Samples  []any            `json:"samples"`
 	Notes    []string         `json:"notes"`
+	// Incomplete: the worker hit its internal deadline before finishing its shard of HTTP names
+	Incomplete bool `json:"incomplete"`
 
 	distinct map[string]struct{}
 }
@@ -113,7 +115,9 @@ func main() {
 		"x {IsValidPathName, FindPathConf over 8 loaded configurations, static configuration name through conf.Load (<=%d symbols)}; "+
 		"x %d record path formats x {FindSegments, Path.Encode, playback list, playback get, api recordings/get, api recordings/deletesegment} x 2 percent-encodings, "+
 		"plus recordings/list and 2 cleaner configurations per format; every directory of the tree is watched with inotify; "+
-		"distinct = (entry point, format, name class, status, what was touched)",
+		"distinct classes: validators = (function, configuration, accepted/rejected, resolved configuration, shape of the name or rejection reason); "+
+		"file-system stages = (stage/entry point, format, name class {rejection reason, valid-fixture, valid-other}, status or segment count, touched {none, inside, outside}); "+
+		"recorder/encode = (format, record format, shape of the name); cleaner = (format, configuration, files removed)",
 		tp.directLen, tp.httpLen, len(symbols), symbols, len(extraNames), tp.confLen, nf)
 
 	// workers first (they run as separate processes while part A runs here)
@@ -197,7 +201,11 @@ func main() {
 	}
 
 	totals := map[string]int64{}
+	incomplete := false
 	for _, res := range results {
+		if res.Incomplete {
+			incomplete = true
+		}
 		r.Eval(int(res.Evals))
 		for _, d := range res.Distinct {
 			r.Distinct(d)
@@ -240,7 +248,10 @@ func main() {
 			vcommon.Harness("vacuous: counter %s is 0", k)
 		}
 	}
-	r.Exhaustive = true
+	r.Exhaustive = !incomplete
+	if incomplete {
+		r.Note("internal deadline hit: %d names were not sent to the HTTP entry points (machine overloaded); everything else was completed", totals["http_names_not_reached_deadline"])
+	}
 	r.Assumptions = []string{
 		"DON'T-CARE (DESIGN §9 item 15): a request equal to the literal name of a regexp configuration ('~^a.*$', '~/../../rec2') is accepted by the exact lookup of FindPathConf; " +
 			"C14 demands that exact hit, C06 forbids accepting such a name; the statements conflict, so these cases are counted (dontcare_literal_regexp_name*) and not judged",
@@ -248,7 +259,8 @@ func main() {
 		"'accepted' at an HTTP entry point = any status other than 400, or any file-system activity in the watched tree",
 		"file-system activity is observed with inotify (open, create, delete, modify, move, attrib on every directory of the tree and its children) and a full comparison of the tree with its manifest at the end of each worker; stat() calls are not observable and not judged",
 		"recorder: the real recorder is run on a real stream for 14 valid names x {fmp4, mpegts} x 5 record path formats; for all other valid names only the file name computation is exercised as the recorder does it (PathAddExtension(ReplaceAll(recordPath,%path,name)) then recordstore.Path{Start}.Encode)",
-		"pathManager / RTSP / RTMP / SRT / WebRTC / HLS entry points all go through conf.FindPathConf (checked in part A); they are not driven over the network here",
+		"pathManager / RTSP / RTMP / SRT / WebRTC / HLS entry points all go through conf.FindPathConf (checked in part A); they are not driven over the network here; " +
+			"the API config/paths/add|replace routes end in the same Conf.Validate that part A drives through conf.Load",
 		"authentication is stubbed out (always succeeds); time zone is forced to UTC",
 	}
 	os.RemoveAll(outDir)
